@@ -38,6 +38,23 @@ def handleTc (e t : Sexp) : String :=
           | _ => "(typed " ++ resClass r ++ ")"
   | _, _ => "bad-request"
 
+/-- `acc <annotated program>`: would the (verified) monomorphic checker accept this closed
+    program at some type? Used on the LET-EXPANDED members of the family "generalisation under a
+    binder": for let-bound lambdas, Hindley-Milner typability of the original program is
+    monomorphic typability of the expansion. `accept` means `inferA` accepted (a `HasType`
+    derivation exists, `Props.C02.infer_sound`); `reject` means the elaborator found no annotation
+    or `inferA` refused it. -/
+def handleAcc (e : Sexp) : String :=
+  match parseExpr (Elab.encodeAnn e) with
+  | some e =>
+    match Elab.elabProgramInfer surfDeclsA e with
+    | .error _ => "(reject)"
+    | .ok a =>
+      match inferA surfDeclsA [] a with
+      | none => "(reject)"
+      | some _ => "(accept)"
+  | none => "bad-request"
+
 def kindVal : Val → String
   | .int _ => "int"
   | .str _ => "str"
@@ -78,6 +95,7 @@ def handleGlob (r i : Nat) (k : String) : String :=
 
 def handle : List Sexp → String
   | [.atom "tc", e, t] => handleTc e t
+  | [.atom "acc", e] => handleAcc e
   | [.atom "glob", r, i, .atom k] =>
     match r.toNat?, i.toNat? with
     | some r, some i => handleGlob r i k
